@@ -1,5 +1,5 @@
 (* Check_C03.v -- case format and per-case verdicts for the C03 correspondence run. *)
-From V Require Export CaseLib BinderSpec.
+From V Require Export CaseLib BinderSpec BinderFile.
 Local Open Scope nat_scope.
 
 (* what the harness saw: the value (with its dynamic Go type) the handler received for the parameter;
@@ -27,6 +27,9 @@ Inductive case :=
         (floats : list (bytes * option (Z * bool * Z)))  (* text -> ParseFloat answer *)
         (valid : option nat)                             (* validate.ParamValidator on the bound value: first error code *)
         (ran : bool) (o : obs)
+| CFile (required : bool) (name : bytes) (rq : freq)   (* one parameter of type file, one form body *)
+        (ran panicked : bool) (status code : nat) (names : bool)
+        (got : option (bytes * bytes))      (* file name and content the handler received; None: no file *)
 | CCanon (sent stored : bytes)              (* http.CanonicalHeaderKey *)
 | CInt (txt : bytes) (r : option Z)         (* strconv.ParseInt(txt, 10, 64) as the binder calls it *)
 | CSplit (data cf : bytes) (r : list bytes) (* swag.SplitByFormat *)
@@ -111,6 +114,15 @@ Definition check_case (c : case) : N :=
        (also where the specification has no opinion: an ill-typed default consulted) *)
     verdict (pre && outcome_matches (bind_param O d rq valid) ran o)
             (outcome_matches (spec_outcome O d rq valid) ran o && negb (match o with OPanic => true | _ => false end))
+  | CFile required name rq ran panicked status code names got =>
+    verdict (negb panicked &&
+             match bind_file required name rq, got with
+             | FGot f d, Some (f', d') => ran && Nat.eqb status 200 && bytes_eqb f f' && bytes_eqb d d'
+             | FNone, None => ran && Nat.eqb status 200
+             | FRefused st, None => negb ran && Nat.eqb status st && Nat.eqb code st && names
+             | _, _ => false
+             end)
+            (negb panicked && file_expect required name rq ran status names got)
   | CCanon sent stored => verdict (bytes_eqb (canon_key sent) stored) true
   | CInt txt r =>
     verdict (opt_eqb Z.eqb (parse_int_dec txt) r)
